@@ -38,8 +38,8 @@ def chunks(tier, seed):
     return out
 
 
-def _profile():
-    return gen.profile("full", p_parallel=0.5, p_compound=0.3, min_fan=3, max_fan=5, max_depth=3,
+def _profile(dup=False):
+    return gen.profile("full", p_dup_key=0.6 if dup else 0.0, p_parallel=0.5, p_compound=0.3, min_fan=3, max_fan=5, max_depth=3,
                        p_history=0.4, p_hist_target=0.35, p_hist_deep=0.7, p_root_on=0.7,
                        p_handle=0.5, max_states=45, maxit=20000, p_parallel_root=0.5, p_raise=0.04)
 
@@ -61,6 +61,11 @@ def _run(engine, case, nev, events, gtables, rng):
                 if r[0] == "act"]
         if st.phase == "start":
             acts = [(a[0], None) for a in acts]  # init event type is engine specific (see C05)
+        if engine == "pure":
+            # the reducer returns the ordered actions it would execute
+            acts = [(getattr(a, "type", str(a)), None) for a in (st.extra or [])]
+            trace.append(_step_digest(st, acts))
+            return False
         trace.append(_step_digest(st, acts))
         # coverage: regions entered/exited per transition bracket
         per_parent = {}
@@ -79,7 +84,7 @@ def _run(engine, case, nev, events, gtables, rng):
                     stats["deephist"] += 1
                 per_parent = {}
         return False
-    f = drive.run_sync if engine == "sync" else drive.run_async
+    f = {"sync": drive.run_sync, "async": drive.run_async, "pure": drive.run_pure}[engine]
     run = f(case, nev, rng, on_step, events=events, gtables=gtables)
     return trace, run["events"], stats
 
@@ -111,14 +116,19 @@ def run_chunk(spec):
     res = Result()
     traces = {}
     nev = NEV[spec["tier"]]
-    P = _profile()
+    P0, P1 = _profile(), _profile(dup=True)
     wd = Watchdog(res, 90.0)
     base = spec["chunk"] * 100000
     only = spec.get("only_case")
     idxs = [only["idx"]] if only else [base + j for j in range(spec["n"])]
     for idx in idxs:
         wd.arm("idx=%d" % idx)
+        # every third machine reuses local state names across parents (same-named leaves in
+        # different regions): a tie-break on the local name would fall back to set order
+        P = P1 if idx % 3 == 2 else P0
         case = gen.gen_case(rng_for(spec["seed"], ID, spec["chunk"], idx, "case"), P)
+        if idx % 3 == 2:
+            res.count("cases.shared-local-names")
         grng = rng_for(spec["seed"], ID, spec["chunk"], idx, "gt")
         gtables = [drive.rand_gtable(grng, case) for _ in range(nev + 1)]
         erng = rng_for(spec["seed"], ID, spec["chunk"], idx, "ev")
@@ -151,6 +161,17 @@ def run_chunk(spec):
             res.violation("C16:sync-vs-async:%s" % d[0],
                           "sync and async traces differ in %s at step %d" % d,
                           {"events": events, "plan": case.plan, "step": d[1]}, case={"idx": idx})
+        # the pure reducer, twice in this process and (through post()) under every hash seed
+        tp, _, _ = _run("pure", case, nev, events, gtables, erng)
+        traces[str(idx) + "p"] = tp
+        tp2, _, _ = _run("pure", case, nev, events, gtables, erng)
+        res.evaluations += 1
+        res.count("compared.pure-rebuild")
+        d = _first_diff(tp, tp2)
+        if d is not None:
+            res.violation("C16:pure-rebuild:%s" % d[0],
+                          "two runs of the pure API over the same events differ in %s at step %d" % d,
+                          {"events": events, "plan": case.plan, "step": d[1]}, case={"idx": idx})
         if idx % 1000 == 0 and spec.get("hashseed") == "0":
             res.sample({"events": events[:6], "steps": len(t0), "machine": plan_summary(case)})
     wd.disarm()
@@ -176,18 +197,19 @@ def post(specs, results):
                 d = _first_diff(ref[idx], t)
                 if d is not None:
                     violations.append({
-                        "key": "C16:hashseed:%s" % d[0],
+                        "key": "C16:hashseed:%s%s" % ("pure-api:" if idx.endswith("p") else "", d[0]),
                         "what": "PYTHONHASHSEED=%s and =%s give different %s at step %d" % (
                             ref_spec["hashseed"], spec["hashseed"], d[0], d[1]),
                         "witness": {"hashseeds": [ref_spec["hashseed"], spec["hashseed"]],
                                     "step": d[1]},
-                        "case": {"idx": int(idx)}, "spec": spec})
+                        "case": {"idx": int(idx.rstrip("p"))}, "spec": spec})
     return {"counters": counters, "violations": violations}
 
 
 def quota(counters, tier):
     out = []
     for k in ("compared.across-hashseeds", "compared.in-process-rebuild", "compared.sync-vs-async",
+              "compared.pure-rebuild", "cases.shared-local-names",
               "cases.wide-region-transition", "cases.deep-history-restore-multi-leaf"):
         if counters.get(k, 0) == 0:
             out.append("monitor-never-reached:" + k)
